@@ -1,11 +1,14 @@
 """C08 — batching wrapper: every call completes under every schedule (no deadlock, no lost wake-up).
 Oracle + exploration + correspondence: vlib/batch.py; model: Batch/Monitor.v through the extracted binary."""
-from vlib import batch
+from vlib import batch, translate
 
 
 def run(ctx):
+    translate.check_link(ctx, "C06")  # regenerate Gallina from /repo's current mutex_primitives.py; link lemmas coq/link/C06Link.v
     batch.run_property(ctx, "C08")
 
 
 def replay(ctx, payload):
+    if translate.is_link_replay(payload) and not payload.get("failing_input"):
+        return translate.replay(ctx, payload, "C06")  # a replay file written for a broken translation tie
     batch.replay_property(ctx, "C08", payload)
